@@ -74,7 +74,7 @@ def conv_mismatch(a, us1, us2, d, d2):
 def conv_mismatch_text(a, us1, us2, d, d2):
     v = UnitValue(a, Units(SYS[us1], UnitsDimensions(*d)))
     tgt = Units(SYS[us2], UnitsDimensions(*d2))
-    return raises(lambda: v.convert(str(tgt)))
+    return raises(lambda: v.convert(str(tgt))) and raises(lambda: UnitValue(str(v), str(tgt)))
 
 
 def composition(kind, e, xa, xb, xc):
